@@ -19,7 +19,10 @@ const CLIENT_ID_HEADER: &str = "cid";
 
 #[must_use = "sinks do nothing unless you poll them"]
 pub struct Router<K, V> {
+    #[cfg(not(feature = "verif-hooks"))]
     entries: HashMap<K, V>,
+    #[cfg(feature = "verif-hooks")]
+    entries: HashMap<K, V, verif::OrderState>,
 }
 
 impl<K, V> Router<K, V>
@@ -28,13 +31,19 @@ where
 {
     pub fn new() -> Self {
         Self {
+            #[cfg(not(feature = "verif-hooks"))]
             entries: HashMap::new(),
+            #[cfg(feature = "verif-hooks")]
+            entries: HashMap::with_hasher(verif::OrderState),
         }
     }
 
     pub fn with_capacity(capacity: usize) -> Self {
         Self {
+            #[cfg(not(feature = "verif-hooks"))]
             entries: HashMap::with_capacity(capacity),
+            #[cfg(feature = "verif-hooks")]
+            entries: HashMap::with_capacity_and_hasher(capacity, verif::OrderState),
         }
     }
 
@@ -213,5 +222,53 @@ where
         T: IntoIterator<Item = (K, V)>,
     {
         self.entries.extend(iter);
+    }
+}
+
+/// Verification hook H1 (cargo feature `verif-hooks`, off by default): lets a model-checking
+/// harness own the iteration order of `Router::entries`, which otherwise depends on the
+/// per-process random seed of `std::collections::hash_map::RandomState`.
+#[cfg(feature = "verif-hooks")]
+pub mod verif {
+    use std::cell::RefCell;
+    use std::hash::{BuildHasher, Hasher};
+
+    thread_local! {
+        static RANKS: RefCell<Vec<u64>> = RefCell::new(Vec::new());
+    }
+
+    /// `ranks[k]` becomes the hash of key `k` (keys are small integers); keys beyond the
+    /// table hash to themselves. With distinct small ranks the map iterates in rank order.
+    pub fn set_ranks(ranks: &[u64]) {
+        RANKS.with(|r| *r.borrow_mut() = ranks.to_vec());
+    }
+
+    #[derive(Clone, Copy, Default)]
+    pub struct OrderState;
+
+    pub struct OrderHasher(u64);
+
+    impl BuildHasher for OrderState {
+        type Hasher = OrderHasher;
+
+        fn build_hasher(&self) -> OrderHasher {
+            OrderHasher(0)
+        }
+    }
+
+    impl Hasher for OrderHasher {
+        fn finish(&self) -> u64 {
+            self.0
+        }
+
+        fn write(&mut self, bytes: &[u8]) {
+            for b in bytes {
+                self.0 = (self.0 << 8) | *b as u64;
+            }
+        }
+
+        fn write_usize(&mut self, k: usize) {
+            self.0 = RANKS.with(|r| r.borrow().get(k).copied().unwrap_or(k as u64));
+        }
     }
 }
